@@ -646,7 +646,7 @@ fn prng_case(check: &Check, rng: &mut Rng) {
         3 | 4 => 3,
         _ => 5,
     };
-    let timeout = *rng.pick(&[Duration::ZERO, Duration::from_nanos(1), Duration::from_secs(1), Duration::from_secs(60), Duration::from_secs(60)]);
+    let timeout = *rng.pick(&[Duration::ZERO, Duration::from_nanos(1), Duration::from_secs(1), Duration::from_secs(60), Duration::from_secs(61), Duration::from_secs(90), Duration::from_secs(3600)]);
     let n = 40 + rng.usize(160);
     let cfg = json!({"bucket_size": cap, "pending_timeout_ns": timeout.as_nanos() as u64});
     if rng.chance(1, 3) {
